@@ -72,6 +72,9 @@ def rule_host_operator_pitfalls(ctx, rep, rid: str) -> None:
         for s in body:
             for n in walk_no_nested(s):
                 if isinstance(n, ast.BinOp) and isinstance(n.op, pyop):
+                    both_abs = all(isinstance(x, ast.Call) and norm(x.func) == "abs" for x in (n.left, n.right))
+                    if pyop is ast.Mod and both_abs:
+                        continue  # floored and truncated remainder coincide on non-negative operands
                     hit = n
         key = f"{df.qual}:{opn}:raw-host-operator"
         if hit is not None:
